@@ -79,11 +79,8 @@ def directive_dispatch(repo: Repo):
         if fi is None:
             raise AnalysisError(f"DirectiveParser.{name}: candidate is not a method")
         kw = None
-        for n in walk_no_nested(fi.node):
-            if isinstance(n, ast.Call) and callee(n) == "self.match_value" and len(n.args) == 2:
-                if u(n.args[0]) == "Identifier" and isinstance(n.args[1], ast.Constant):
-                    kw = n.args[1].value
-                    break
+        fi_real = fi
+        fi = _unwrap_delegation(dp, fi)
         # first match_value in source order
         calls = [
             n
@@ -100,8 +97,39 @@ def directive_dispatch(repo: Repo):
             for n in walk_no_nested(fi.node)
             if isinstance(n, ast.Return) and isinstance(n.value, ast.Call) and isinstance(n.value.func, ast.Name)
         ]
-        rows.append({"method": fi, "keyword": kw, "classes": [r.func.id for r in rets], "returns": rets})
+        rows.append({"method": fi_real, "keyword": kw, "classes": [r.func.id for r in rets], "returns": rets})
     return rows, parse
+
+
+class _Body:
+    """a function body with a delegate's parameters replaced by the arguments of the delegating call"""
+
+    def __init__(self, node):
+        self.node = node
+
+
+def _unwrap_delegation(cls, fi):
+    """`def else_(self): return self.__bare(kw, Node)` stands for the body of __bare with (kw, Node) substituted"""
+    import copy
+
+    body = strip_doc(fi.node.body)
+    if len(body) == 1 and isinstance(body[0], ast.Return) and isinstance(body[0].value, ast.Call):
+        c = body[0].value
+        if isinstance(c.func, ast.Attribute) and dotted(c.func.value) == "self" and not c.keywords and all(isinstance(a, (ast.Constant, ast.Name)) for a in c.args):
+            h = cls.find_method(c.func.attr)
+            if h is not None and h is not fi:
+                params = [a.arg for a in h.node.args.args][1:]
+                if len(params) == len(c.args):
+                    sub = dict(zip(params, c.args))
+
+                    class S(ast.NodeTransformer):
+                        def visit_Name(self, n):
+                            return copy.deepcopy(sub[n.id]) if n.id in sub and isinstance(n.ctx, ast.Load) else n
+
+                    node = S().visit(copy.deepcopy(h.node))
+                    ast.fix_missing_locations(node)
+                    return _Body(node)
+    return fi
 
 
 def dict_literal(node):
